@@ -7,7 +7,8 @@ DEVIRT = ['function_task', 'function_stack_task', 'task_handle_task', 'reference
 # '--paths lifo' = path-wise symbolic execution: every path of the symbolic throw mask is explored and decided (feasibility + all
 # assertions) by its own SAT query; along one path all pointers stay concrete, which merged symbolic execution does not achieve here
 CB = ['--unwind', '10', '--object-bits', '12', '--paths', 'lifo']
-CB2 = ['--unwind', '26', '--object-bits', '12', '--paths', 'lifo']
+CB2 = ['--unwind', '44', '--object-bits', '12', '--paths', 'lifo']
+CBT = ['--unwind', '20', '--object-bits', '12', '--paths', 'lifo']   # thorough tier of the task_group harnesses (more dispatch-loop iterations)
 NCF = ['-fno-sanitize=null']   # native replay: libstdc++'s hashtable forms &node->field from a null node pointer without accessing it
 COMMON = dict(mode='seq', cxxflags=CXX, exceptions=True, prune=True, inline_threshold=225, devirt=DEVIRT,
               m1ptr=True,        # LockedTaskPool = (task**)-1 sentinel
@@ -18,7 +19,7 @@ UNITS = {
   # r1::notify_waiters is cut as well and counted: "the wait_context of the call reaches zero exactly once"
   'pf': dict(wrapper='w_pf.cpp', cut=['receive_or_steal_task', 'r114notify_waitersEm'], **COMMON),
 }
-TG = dict(unit='tg', harness='h_tg.c', cbmc=CB, timeout=600, thorough_override={'timeout': 3600}, native_cflags=NCF)
+TG = dict(unit='tg', harness='h_tg.c', cbmc=CB, timeout=600, thorough_override={'timeout': 3600, 'cbmc': CBT}, native_cflags=NCF)
 PF = dict(unit='pf', harness='h_pf.c', cbmc=CB2, timeout=600, thorough_override={'timeout': 3600}, native_cflags=NCF)
 ORACLE_TG = ('oracle: every body at most once and none after its group captured an exception or after the wait returned; wait() rethrows iff '
              'work of the group threw, the rethrown object is the one thrown, exactly one rethrow per reporting wait; wait never returns with '
@@ -26,39 +27,46 @@ ORACLE_TG = ('oracle: every body at most once and none after its group captured 
              'exception objects, tbb_exception_ptr storage and task objects released exactly once')
 HARNESSES = [
   dict(name='tg_wait', defines={'SCEN': 1}, scenarios=[{'N': 1, 'REUSE': 0}, {'N': 2, 'REUSE': 1}],
-       scenarios_thorough=[{'N': 1, 'REUSE': 1}, {'N': 2, 'REUSE': 1}, {'N': 3, 'REUSE': 1}, {'N': 4, 'REUSE': 0}, {'N': 4, 'REUSE': 1}],
+       scenarios_thorough=[{'N': n, 'REUSE': 1} for n in range(1, 7)],
        desc='real task_group::run x N, wait() [, run again + wait() on the same group] executed by the real task_dispatcher::local_wait_for_all (its catch handler, '
             'cancel_group_execution, tbb_exception_ptr, re-dispatch of the throwing task through cancel()), execute_and_wait rethrow, task_group::wait on_completion reset; '
             'symbolic subset of the bodies throws. ' + ORACLE_TG,
        bounds={'tasks': 'N (+1 in the reuse phase)', 'threads': 1, 'throwing bodies': 'every subset'}, **TG),
-  dict(name='tg_run_and_wait', defines={'SCEN': 2}, scenarios=[{'N': 1}, {'N': 2}], scenarios_thorough=[{'N': 0}, {'N': 1}, {'N': 2}, {'N': 3}],
+  dict(name='tg_run_and_wait', defines={'SCEN': 2}, scenarios=[{'N': 1}, {'N': 2}], scenarios_thorough=[{'N': n} for n in range(0, 7)],
        desc='real task_group::run x N + run_and_wait(f): function_stack_task executed without spawn by execute_and_wait, siblings from the pool; symbolic subset of the N+1 bodies throws. ' + ORACLE_TG,
        bounds={'tasks': 'N+1', 'threads': 1, 'throwing bodies': 'every subset'}, **TG),
   dict(name='tg_nested', defines={'SCEN': 3}, scenarios=[{'N': 1, 'CATCH': 1}, {'N': 2, 'CATCH': 0}],
-       scenarios_thorough=[{'N': n, 'CATCH': c} for n in (1, 2, 3) for c in (0, 1)],
+       scenarios_thorough=[{'N': n, 'CATCH': c} for n in (1, 2, 3, 4) for c in (0, 1)],
        desc='nested groups: a task of the outer group creates an inner task_group (context bound to the outer one), runs N tasks and waits (nested dispatch loop) while a sibling of the '
             'outer group is still in the pool; CATCH=1: the task handles the inner wait\'s exception, CATCH=0: it lets it escape (captured again by the outer group, rethrown by the outer '
             'wait). Symbolic subset of the N+2 bodies throws. ' + ORACLE_TG + '; the inner group\'s exception does not cancel the outer group unless it escapes',
        bounds={'tasks': 'N inner + 2 outer', 'threads': 1, 'throwing bodies': 'every subset'}, **TG),
-  dict(name='tg_outer_throw', defines={'SCEN': 4}, scenarios=[{'N': 1}],
+  dict(name='tg_outer_throw', defines={'SCEN': 4, 'N': 1}, scenarios=[{'XT': 0}, {'XT': 1}],
        desc='an exception of the OUTER group while nested groups have work: outer task A spawns a task of inner group g1 and then a task X of the outer group and waits for g1, so the nested '
             'dispatch loop runs X first; if X throws, the outer context is cancelled: the pending g1 task and the task of a group g2 created afterwards must not start (state propagation to bound '
-            'children / inheritance at bind time), g1.wait()/g2.wait() report canceled without throwing, the outer wait rethrows X\'s exception. Symbolic subset of {B, X, g1 task, g2 task} throws. ' + ORACLE_TG,
+            'children / inheritance at bind time), g1.wait()/g2.wait() report canceled without throwing, the outer wait rethrows X\'s exception. Whether X throws is concrete per query (XT), the subset of {B, g1 task, g2 task} that throws is symbolic. ' + ORACLE_TG,
        bounds={'tasks': '2 outer + X + 1 per inner group', 'threads': 1, 'throwing bodies': 'every subset'}, **TG),
-  dict(name='pfor', defines={'ALGO': 1}, scenarios=[{'N': 3}, {'N': 4}], scenarios_thorough=[{'N': n} for n in range(1, 9)],
+  dict(name='pfor', defines={'ALGO': 1}, scenarios=[{'N': 3}, {'N': 4}], scenarios_thorough=[{'N': n} for n in range(1, 13)],
        desc='real parallel_for(Range, Body, simple_partitioner) over [0,N), one leaf task per element: start_for::run/execute/offer_work/cancel/finalize, tree_node fold_tree, on the real dispatcher loop; '
             'symbolic subset of the elements throws. Oracle: the call rethrows iff a body threw, the object thrown first, once; no body invocation after the capture; every element at most once '
             '(exactly once if nothing threw); every Range and Body copy destroyed exactly once and none alive (except the user\'s) when the call returns; tasks/tree nodes released exactly once; '
             'wait_context reaches zero exactly once; pool empty; never would-spin-forever',
        bounds={'elements': 'N', 'threads': 1, 'throwing elements': 'every subset'}, **PF),
-  dict(name='pdreduce', defines={'ALGO': 2}, scenarios=[{'N': 3}, {'N': 4}], scenarios_thorough=[{'N': n} for n in range(1, 9)],
+  dict(name='pdreduce', defines={'ALGO': 2}, scenarios=[{'N': 3}, {'N': 4}], scenarios_thorough=[{'N': n} for n in range(1, 13)],
        desc='real parallel_deterministic_reduce(simple_partitioner) over [0,N): start_deterministic_reduce + deterministic_reduction_tree_node (split body per right child) on the real dispatcher loop; '
             'oracle of pfor plus: join is never called once the group captured an exception, joins are adjacent, split bodies destroyed exactly once, full interval reduced if nothing threw',
        bounds={'elements': 'N', 'threads': 1, 'throwing elements': 'every subset'}, **PF),
-  dict(name='preduce', defines={'ALGO': 3}, scenarios=[{'N': 3}], scenarios_thorough=[{'N': n} for n in range(1, 9)],
+  dict(name='preduce', defines={'ALGO': 3}, scenarios=[{'N': 3}], scenarios_thorough=[{'N': n} for n in range(1, 13)],
        desc='real parallel_reduce(simple_partitioner) over [0,N): start_reduce cancel/finalize/fold paths on the real dispatcher loop (no zombie body arises with one thread); oracle of pfor',
        bounds={'elements': 'N', 'threads': 1, 'throwing elements': 'every subset'}, **PF),
 ]
+# ---- parallel_scan under cancellation (package prepared by the C06 builder): KNOWN FINDING of C03, see known_findings.txt
+import importlib.util as _ilu, os as _os
+_sp = _ilu.spec_from_file_location('scan_cancel_snippet', _os.path.join(_os.path.dirname(_os.path.abspath(__file__)), 'scan_cancel_spec_snippet.py'))
+_m = _ilu.module_from_spec(_sp); _sp.loader.exec_module(_m)
+UNITS.update(_m.UNITS_SNIPPET)
+HARNESSES += _m.HARNESSES_SNIPPET
+
 MANIFEST = dict(
   level_text='Bounded symbolic execution of the real exception path of the scheduler in a one-thread world: the real task_dispatcher::local_wait_for_all loop with its catch(...) handler, '
              'task_group_context cancel_group_execution/reset/destroy, tbb_exception_ptr, execute_and_wait\'s rethrow, arena_slot spawn/get_task, r1::spawn/wait, get_thread_reference_vertex, and on top of it '
@@ -68,7 +76,7 @@ MANIFEST = dict(
              'object that was thrown, and only after the pool is drained and the wait reference released (a lost release is reported as "would spin forever"); the group is reusable afterwards; '
              'exception objects, tbb_exception_ptr, task objects, tree nodes and every Range/Body copy are released exactly once; reduction joins are skipped after cancellation.',
   level_note='One model thread only: races between two throwers / a thrower and a thief, worker-side catch, stolen-task paths and zombie bodies of parallel_reduce are outside (winner election of '
-             'cancel_group_execution is C04). Bounds: <= 4 tasks (+reuse) per group, <= 3 inner + 2 outer tasks nested, <= 8 range elements (thorough). The C++ exception ABI and std::exception_ptr are '
+             'cancel_group_execution is C04). Bounds (thorough tier): <= 6 tasks (+1 reuse) per group, <= 4 inner + 2 outer tasks nested, <= 12 range elements; quick tier: 2 tasks + reuse, 2 inner + 2 outer, 4 elements. The C++ exception ABI and std::exception_ptr are '
              'modelled by the reference-counting runtime in rt/vp.h; task storage (small_object_pool), arena construction and thread registration are harness/wrapper stubs listed in evidence. '
              'Trusted: clang-14 IR, tools/ir2c.py incl. its exception lowering, tools/devirt.py, cbmc.',
 )
